@@ -21,10 +21,10 @@ var propSpecs = []propSpec{
 	{
 		id: "C01",
 		runs: []runSpec{
-			{dir: "mux", entry: "ZZC01", quick: seq(0, []int{0, 1, 2, 3, 4, 5, 6, 7, 8, 9, 10, 11, 12, 13, 14, 15, 16, 17, 18, 19, 20, 21, 22, 23}, 8), thorough: seq(0, []int{0, 1, 2, 3, 4, 5, 6, 7, 8, 9, 10, 11, 12, 13, 14, 15, 16, 17, 18, 19, 20, 21, 22, 23}, 10)},
+			{dir: "mux", entry: "ZZC01", quick: append(seq(0, []int{0, 1, 2, 3, 4, 5, 6, 7, 8, 9, 10, 11, 12, 13, 14, 15, 16, 17, 18, 19, 20, 21, 22, 23}, 8), 2406), thorough: append(seq(0, []int{0, 1, 2, 3, 4, 5, 6, 7, 8, 9, 10, 11, 12, 13, 14, 15, 16, 17, 18, 19, 20, 21, 22, 23}, 10), 2407)}, // table 24 (ignored parameters at the end: the oracle searches their values) with shorter paths
 		},
 		covers:  []string{"404", "405", "options", "options-star", "served", "served-with-params"},
-		bounds:  "request path: every byte string of length <= 8 (all 256 byte values); method: each of GET HEAD POST OPTIONS DELETE PUT TRACE \"\" BOGUS plus every string of <= 3 free bytes; 24 route-table histories (Handle/Remove/Clean/Prefix.Clean, <= 10 operations) over literal, named, regexp (also with capture groups of their own), interceptor, ignored-name, endpoint, non-ASCII-literal and >=5-sibling shapes; interceptors digit/word/any and an arbitrary user-defined interceptor (an uninterpreted predicate: the verdict holds for every pure interceptor function; a counterexample carries the function table of the model)",
+		bounds:  "request path: every byte string of length <= 8 (all 256 byte values); method: each of GET HEAD POST OPTIONS DELETE PUT TRACE \"\" BOGUS plus every string of <= 3 free bytes; 25 route-table histories (Handle/Remove/Clean/Prefix.Clean, <= 10 operations) over literal, named, regexp (also with capture groups of their own), interceptor, ignored-name, endpoint, non-ASCII-literal and >=5-sibling shapes; interceptors digit/word/any and an arbitrary user-defined interceptor (an uninterpreted predicate: the verdict holds for every pure interceptor function; a counterexample carries the function table of the model)",
 		boundsT: "as quick, request path length <= 10",
 		outside: "longer paths; route tables other than the 8 listed histories; regexp rules other than \\d+ [a-z]+ [a-c]+ \\w* a|b a|bc; interceptor functions with side effects; patterns with braces in literal text; for patterns with '-' (ignored) parameters the path is matched against an anchored expression built from the pattern instead of being reconstructed",
 		assume:  []string{"patterns are well-formed"},
@@ -34,11 +34,11 @@ var propSpecs = []propSpec{
 		id: "C02",
 		runs: []runSpec{
 			{dir: "mux", entry: "ZZC02",
-				quick:    []int{8, 108, 208, 308, 408, 508, 608, 708, 808, 908, 1008, 1108, 1208, 1308, 1408, 1508, 1608, 1708, 1908, 2008, 2108, 2308, 2408, 2508, 2608, 2708, 2808, 2908, 3008, 3108, 3208, 3308, 3408, 3508},
-				thorough: []int{10, 110, 210, 310, 410, 510, 610, 710, 810, 910, 1010, 1110, 1210, 1310, 1410, 1510, 1610, 1710, 1806, 1910, 2010, 2110, 2208, 2310, 2410, 2510, 2610, 2710, 2810, 2910, 3010, 3110, 3210, 3310, 3410, 3510}},
+				quick:    []int{8, 108, 208, 308, 408, 508, 608, 708, 808, 908, 1008, 1108, 1208, 1308, 1408, 1508, 1608, 1708, 1908, 2008, 2108, 2308, 2408, 2508, 2608, 2708, 2808, 2908, 3008, 3108, 3208, 3308, 3408, 3508, 3606, 3709},
+				thorough: []int{10, 110, 210, 310, 410, 510, 610, 710, 810, 910, 1010, 1110, 1210, 1310, 1410, 1510, 1610, 1710, 1806, 1910, 2010, 2110, 2208, 2310, 2410, 2510, 2610, 2710, 2810, 2910, 3010, 3110, 3210, 3310, 3410, 3510, 3608, 3711}},
 		},
 		covers:  []string{"404", "matched", "matched-with-params"},
-		bounds:  "request path: every byte string of length <= 8; 34 add-only route tables (two with a literal that starts with a non-ASCII byte; 8 selections of 3-4 patterns from a 15-pattern pool plus a 6-literal-sibling bundle, each in two registration orders; 6 tables aimed at the first-byte index with a failing indexed literal, deep literal splits, one parameter with several suffixes, endpoint vs continuing parameters); reference = a resolver over the pattern strings that never builds a tree and returns the set of admissible outcomes",
+		bounds:  "request path: every byte string of length <= 8; 36 add-only route tables, three of them also probed with a few concrete paths beyond the length bound (20-digit runs, five separators) (two with a literal that starts with a non-ASCII byte; 8 selections of 3-4 patterns from a 15-pattern pool plus a 6-literal-sibling bundle, each in two registration orders; 6 tables aimed at the first-byte index with a failing indexed literal, deep literal splits, one parameter with several suffixes, endpoint vs continuing parameters); reference = a resolver over the pattern strings that never builds a tree and returns the set of admissible outcomes",
 		boundsT: "as quick with request path length <= 10, plus a table with four parameter kinds among >=5 children (length <= 6) and one with the three bundled interceptors at one position (length <= 8)",
 		outside: "longer paths; other tables; regexp rules whose alphabet overlaps the first byte of the literal that follows them; paths \"\" and \"*\"",
 		assume:  []string{"patterns are well-formed", "method GET only (method handling is C01/C03/C08)"},
@@ -47,10 +47,10 @@ var propSpecs = []propSpec{
 	{
 		id: "C03",
 		runs: []runSpec{
-			{dir: "mux", entry: "ZZC03", quick: []int{14, 24, 114, 124, 214, 224, 314, 324, 414, 424, 514, 524, 614, 624, 714, 724, 814, 824}, thorough: []int{15, 25, 35, 115, 125, 135, 215, 225, 235, 315, 325, 335, 415, 425, 435, 515, 525, 535, 615, 625, 635, 715, 725, 735, 815, 825, 835}},
+			{dir: "mux", entry: "ZZC03", quick: []int{14, 24, 114, 124, 214, 224, 314, 324, 414, 424, 514, 524, 614, 624, 714, 724, 814, 824, 914, 924}, thorough: []int{15, 25, 35, 115, 125, 135, 215, 225, 235, 315, 325, 335, 415, 425, 435, 515, 525, 535, 615, 625, 635, 715, 725, 735, 815, 825, 835, 915, 925, 935}},
 		},
 		covers:  []string{"history", "non-interference-checked"},
-		bounds:  "9 scenarios (a cleaned prefix that is itself a route; one removal pruning two levels below an indexed parent; a non-ASCII literal among siblings crossing the index threshold; a live route that is a proper prefix of a cleaned prefix; an indexed parent with a handler-less branch that is pruned over two removals; six literal siblings + parameter sibling; five top-level routes not starting with '/'; parameters with several methods; interceptor/regexp/named at one position), every history of <= 2 operations from a 6-10 operation alphabet (Handle, Remove(pattern), Remove(pattern, methods), Clean, Prefix.Clean, Resource.Clean) after the scenario's setup; after the last step: Routes() vs model, witness requests of every pattern x 5 methods, and the same symbolic request (path <= 4 bytes, 5 methods) before and after the step",
+		bounds:  "10 scenarios (a route that lost its handlers, stayed as an inner node, is pruned with its last descendant and comes back; a cleaned prefix that is itself a route; one removal pruning two levels below an indexed parent; a non-ASCII literal among siblings crossing the index threshold; a live route that is a proper prefix of a cleaned prefix; an indexed parent with a handler-less branch that is pruned over two removals; six literal siblings + parameter sibling; five top-level routes not starting with '/'; parameters with several methods; interceptor/regexp/named at one position), every history of <= 2 operations from a 6-10 operation alphabet (Handle, Remove(pattern), Remove(pattern, methods), Clean, Prefix.Clean, Resource.Clean) after the scenario's setup; after the last step: Routes() vs model, witness requests of every pattern x 5 methods, and the same symbolic request (path <= 4 bytes, 5 methods) before and after the step",
 		boundsT: "as quick with histories of <= 3 operations and symbolic paths <= 5 bytes",
 		outside: "longer histories, other pattern pools, paths longer than the bound",
 		assume:  []string{"the non-interference clause is asserted for every request that was dispatched to a route the step does not name"},
@@ -70,16 +70,16 @@ var propSpecs = []propSpec{
 	{
 		id: "C05",
 		runs: []runSpec{
-			{dir: "mux", entry: "ZZC05Req", quick: seq(0, []int{0, 1, 2, 3, 4, 5, 6, 7, 8, 9, 10, 11, 12, 13, 14, 15, 16, 17, 18, 19, 20, 21, 22, 23}, 8), thorough: seq(0, []int{0, 1, 2, 3, 4, 5, 6, 7, 8, 9, 10, 11, 12, 13, 14, 15, 16, 17, 18, 19, 20, 21, 22, 23}, 11)},
+			{dir: "mux", entry: "ZZC05Req", quick: seq(0, []int{0, 1, 2, 3, 4, 5, 6, 7, 8, 9, 10, 11, 12, 13, 14, 15, 16, 17, 18, 19, 20, 21, 22, 23, 24}, 8), thorough: seq(0, []int{0, 1, 2, 3, 4, 5, 6, 7, 8, 9, 10, 11, 12, 13, 14, 15, 16, 17, 18, 19, 20, 21, 22, 23, 24}, 11)},
 			{dir: "mux", entry: "ZZC05Grp", quick: []int{33}, thorough: []int{54}},
 			{dir: "mux", entry: "ZZC05Host", quick: []int{6}, thorough: []int{9}},
 			{dir: "mux", entry: "ZZC05Ver", quick: []int{6}, thorough: []int{10}},
 			{dir: "mux", entry: "ZZC05Pat", quick: []int{6}, thorough: []int{8}},
-			{dir: "mux", entry: "ZZC05Rule", quick: []int{33, 152}, thorough: []int{43, 163}},
+			{dir: "mux", entry: "ZZC05Rule", quick: []int{33, 152, 252}, thorough: []int{43, 163, 263}},
 			{dir: "mux", entry: "ZZC07Wide", quick: []int{2}, thorough: []int{3}},
 		},
 		covers:  []string{"request", "group-request", "host-match", "version-match", "handle-registered", "handle-rejected", "rule-accepted", "rule-rejected", "rule-served", "after-a-wide-request"},
-		bounds:  "Router.ServeHTTP: path = every byte string <= 8 bytes (incl. \"\", \"*\", non-UTF-8), method = every byte string <= 4 bytes, on the 24 route-table histories of C01 (which include Remove/Clean/Prefix.Clean states); Group.ServeHTTP with Hosts, path-version, header-version and And matchers: Host <= 3 ASCII bytes, path <= 3 bytes, 5 methods, 6 Accept headers; Hosts.Match: Host <= 6 ASCII bytes on 9 domains after a Delete; path-version matcher: path <= 6 bytes; patterns: every byte string <= 6 bytes into CheckSyntax, URL, Router.URL (strict and not), Handle on an empty and on a populated router; regexp rules: every string of <= 3 symbols over {a ( ) | ? * \\ b} and of <= 5 symbols over {a ( ) | b} as the rule of /{id:rule} with and without a literal suffix - whatever Handle accepts must then serve every path of <= 2-3 bytes without a fault; a request capturing 30-32 parameters followed by one with a symbolic value",
+		bounds:  "Router.ServeHTTP: path = every byte string <= 8 bytes (incl. \"\", \"*\", non-UTF-8), method = every byte string <= 4 bytes, on the 25 route-table histories of C01 (which include Remove/Clean/Prefix.Clean states); Group.ServeHTTP with Hosts, path-version, header-version and And matchers: Host <= 3 ASCII bytes, path <= 3 bytes, 5 methods, 6 Accept headers; Hosts.Match: Host <= 6 ASCII bytes on 9 domains after a Delete; path-version matcher: path <= 6 bytes; patterns: every byte string <= 6 bytes into CheckSyntax, URL, Router.URL (strict and not), Handle on an empty and on a populated router; regexp rules: every string of <= 3 symbols over {a ( ) | ? * \\ b} and of <= 5 symbols over {a ( ) | b} as the rule of /{id:rule} with and without a literal suffix - whatever Handle accepts must then serve every path of <= 2-3 bytes without a fault; a request capturing 30-32 parameters followed by one with a symbolic value",
 		boundsT: "paths <= 11, Group host <= 5 / path <= 4, Hosts host <= 9, patterns <= 8 bytes",
 		outside: "longer inputs (the math.MaxInt16 segment limit is not reachable); Host bytes >= 0x80 (strings.ToLower is modelled for ASCII only); arbitrary Accept headers (mime.ParseMediaType runs natively on 6 concrete headers); panics raised by user handlers or interceptors",
 		assume:  []string{"regexp.Compile on a symbolic expression is an uninterpreted, consistent function of its bytes that never panics"},
@@ -128,6 +128,7 @@ var propSpecs = []propSpec{
 		runs: []runSpec{
 			{dir: "mux", entry: "ZZC10", quick: []int{3, 103, 203}, thorough: []int{4, 104, 204}},
 			{dir: "mux", entry: "ZZC10RT", quick: []int{8}, thorough: []int{10}},
+			{dir: "mux", entry: "ZZC03", quick: []int{514}, thorough: []int{514, 524}}, // strict URL of every live / removed pattern before and after each step of a history (registrations that split nodes)
 		},
 		covers:  []string{"non-empty-params", "strict-must-fail", "strict-must-succeed", "round-trip", "round-trip-with-params"},
 		bounds:  "20 patterns (9 live routes incl. an ignored parameter whose name starts with '-' covering regexp in the middle and at the end, named, digit/word interceptors, ignored name, regexp + literal suffix; an inner tree node, a node whose methods were removed by name, an unregistered pattern, a prefix of a live route; 6 malformed forms) x every params map (each key present or absent with every value of <= 3 bytes, optional extra key, empty map) x strict/non-strict x 3 URL-domain settings; round trip: every request path of <= 8 bytes dispatched by a 9-route router, rebuilt with URL and strict Router.URL from the captured parameters",
@@ -138,11 +139,11 @@ var propSpecs = []propSpec{
 	{
 		id: "C11",
 		runs: []runSpec{
-			{dir: "mux", entry: "ZZC11", quick: []int{10001, 10101, 10203, 11001, 11101, 11203, 11303, 12001, 12101, 12203, 12303, 13001, 13101, 13303, 14001, 14101, 14303, 15001, 16001, 17001, 18001, 12403, 12501},
-				thorough: []int{10001, 10101, 10203, 10303, 11001, 11101, 11203, 11303, 12001, 12101, 12203, 12303, 13001, 13101, 13203, 13303, 14001, 14101, 14203, 14303, 15001, 16001, 17001, 18001, 12403, 13403, 12501, 12204, 12304}},
+			{dir: "mux", entry: "ZZC11", quick: []int{10001, 10101, 10203, 11001, 11101, 11203, 11303, 12001, 12101, 12203, 12303, 13001, 13101, 13303, 14001, 14101, 14303, 15001, 16001, 17001, 18001, 12403, 12501, 12601},
+				thorough: []int{10001, 10101, 10203, 10303, 11001, 11101, 11203, 11303, 12001, 12101, 12203, 12303, 13001, 13101, 13203, 13303, 14001, 14101, 14203, 14303, 15001, 16001, 17001, 18001, 12403, 13403, 12501, 12601, 12204, 12304}},
 		},
 		covers:  []string{"deny", "404-405", "preflight-unserved-method", "preflight-disallowed-header"},
-		bounds:  "WithCORS with 5 origin lists x 4 allow-header lists (and a mixed-case two-name list on two origin lists), plus WithAllowedCORS, WithDenyCORS and two option sequences in which a later CORS option overrides an earlier one, x 3 (exposed, credentials, max-age) settings with max-age a symbolic int in [1,99999]; requests: GET/HEAD/POST/OPTIONS/empty method on a live route, GET and OPTIONS on a route registered on \"/\", OPTIONS *, an unknown path; Origin absent, every string of <= 2 bytes (so it can equal a configured origin) or, for the two-origin list, its 73-byte second origin verbatim; OPTIONS with an empty request path (absolute-form target, C11 only); Access-Control-Request-Method absent / GET / PUT / every string of <= 3 bytes; Access-Control-Request-Headers absent, 4 fixed spellings (lower case, lists, mixed case with spaces) and every string of <= 3 visible-ASCII/HTAB bytes (<= 1 for the configurations without an allow-list), and for the allow-list {X-Id, X-A} four concrete header lists whose names differ from an allowed name only by a non-ASCII letter with an ASCII case mapping (U+0130, U+0131); reference: own list parser (split on ',', trim OWS, ASCII case-insensitive)",
+		bounds:  "WithCORS with 5 origin lists x 4 allow-header lists (and a mixed-case two-name list on two origin lists, and a list with '*' next to another name), always after a registration that was rejected for a duplicate method behind an unserved one, plus WithAllowedCORS, WithDenyCORS and two option sequences in which a later CORS option overrides an earlier one, x 3 (exposed, credentials, max-age) settings with max-age a symbolic int in [1,99999]; requests: GET/HEAD/POST/OPTIONS/empty method on a live route, GET and OPTIONS on a route registered on \"/\", OPTIONS *, an unknown path; Origin absent, every string of <= 2 bytes (so it can equal a configured origin) or, for the two-origin list, its 73-byte second origin verbatim; OPTIONS with an empty request path (absolute-form target, C11 only); Access-Control-Request-Method absent / GET / PUT / every string of <= 3 bytes; Access-Control-Request-Headers absent, 4 fixed spellings (lower case, lists, mixed case with spaces) and every string of <= 3 visible-ASCII/HTAB bytes (<= 1 for the configurations without an allow-list), and for the allow-list {X-Id, X-A} six concrete header lists whose names differ from an allowed name only by a non-ASCII letter with an ASCII case mapping (U+0130, U+0131) or by a punctuation character that differs in bit 0x20 (^ and ~); a response is read again after a later request from the other listed origin; reference: own list parser (split on ',', trim OWS, ASCII case-insensitive)",
 		boundsT: "every origin-list x allow-list combination with free Access-Control-Request-Headers <= 3 bytes, <= 4 bytes on the single-origin configuration",
 		outside: "header values with bytes outside visible ASCII / HTAB; longer free header values; origins longer than 2 bytes",
 		stubs:   append(append([]string{}, stdStubs...), "strings.TrimSpace: byte-wise model exact for ASCII; strconv.Itoa on the symbolic max-age: digit-wise model"),
@@ -150,8 +151,8 @@ var propSpecs = []propSpec{
 	{
 		id: "C12",
 		runs: []runSpec{
-			{dir: "mux", entry: "ZZC11", quick: []int{21001, 21101, 21203, 21303, 22001, 22101, 22203, 22303, 23001, 23101, 23303, 24001, 24101, 24303, 25001, 28001, 22403, 32101, 33101},
-				thorough: []int{21001, 21101, 21203, 21303, 22001, 22101, 22203, 22303, 23001, 23101, 23203, 23303, 24001, 24101, 24203, 24303, 25001, 28001, 22403, 23403, 32101, 33101, 32203, 22204, 22304}},
+			{dir: "mux", entry: "ZZC11", quick: []int{21001, 21101, 21203, 21303, 22001, 22101, 22203, 22303, 23001, 23101, 23303, 24001, 24101, 24303, 25001, 28001, 22403, 32101, 33101, 22601},
+				thorough: []int{21001, 21101, 21203, 21303, 22001, 22101, 22203, 22303, 23001, 23101, 23203, 23303, 24001, 24101, 24203, 24303, 25001, 28001, 22403, 23403, 32101, 33101, 32203, 22601, 22204, 22304}},
 		},
 		covers:  []string{"grant", "preflight-grant", "not-a-preflight"},
 		bounds:  "as C11 restricted to the 4 non-empty origin lists, plus two configurations explored after a request whose handler added values of its own to every CORS response header (they must not show in later responses); asserted: Allow-Origin/Credentials/Expose-Headers exactly as configured for allowed origins, Allow-Methods = the route's Allow set, Allow-Headers and Max-Age (symbolic int, compared through strconv.Itoa) on accepted preflights only, Vary naming Origin / Access-Control-Request-Method / Access-Control-Request-Headers",
@@ -208,11 +209,11 @@ var propSpecs = []propSpec{
 	{
 		id: "C18",
 		runs: []runSpec{
-			{dir: "mux", entry: "ZZC18", quick: append(seq(50, []int{0, 1, 2, 3, 4, 5, 6, 7, 8, 9, 10, 11, 12, 13, 14, 15, 16, 17, 18, 19, 20, 21, 22, 23}, 6), seq(0, []int{0, 1, 2, 3, 4, 5, 6, 7, 8, 9, 10, 11, 12, 13, 14, 15, 16, 17, 18, 19, 20, 21, 22, 23}, 6)...), thorough: append(seq(50, []int{0, 1, 2, 3, 4, 5, 6, 7, 8, 9, 10, 11, 12, 13, 14, 15, 16, 17, 18, 19, 20, 21, 22, 23}, 9), seq(0, []int{0, 1, 2, 3, 4, 5, 6, 7, 8, 9, 10, 11, 12, 13, 14, 15, 16, 17, 18, 19, 20, 21, 22, 23}, 9)...)},
+			{dir: "mux", entry: "ZZC18", quick: append(seq(50, []int{0, 1, 2, 3, 4, 5, 6, 7, 8, 9, 10, 11, 12, 13, 14, 15, 16, 17, 18, 19, 20, 21, 22, 23, 24}, 6), seq(0, []int{0, 1, 2, 3, 4, 5, 6, 7, 8, 9, 10, 11, 12, 13, 14, 15, 16, 17, 18, 19, 20, 21, 22, 23, 24}, 6)...), thorough: append(seq(50, []int{0, 1, 2, 3, 4, 5, 6, 7, 8, 9, 10, 11, 12, 13, 14, 15, 16, 17, 18, 19, 20, 21, 22, 23, 24}, 9), seq(0, []int{0, 1, 2, 3, 4, 5, 6, 7, 8, 9, 10, 11, 12, 13, 14, 15, 16, 17, 18, 19, 20, 21, 22, 23, 24}, 9)...)},
 			{dir: "trace", entry: "ZZC18Helper", quick: []int{0, 1, 2}, thorough: []int{0, 1, 2}},
 		},
 		covers:  []string{"trace-configured", "trace-not-configured", "dump-ok", "dump-error"},
-		bounds:  "TRACE request with every path of <= 6 bytes on the 24 table histories of C01 between two Use calls, with WithTrace (configured handler, exactly the Use middlewares with arguments TRACE/\"\"/router, no parameters, manual registration refused, TRACE in every Allow set incl. OPTIONS *) and without (404/405 per the documented resolution, TRACE registrable and then served); helper: httputil.DumpRequest nondeterministic (arbitrary error, or arbitrary dump of <= 3 bytes incl. HTML metacharacters), status 200, Content-Type read from the header snapshot taken at WriteHeader, body = html.EscapeString(dump), error passthrough, without body and with a body of undeclared and of declared length",
+		bounds:  "TRACE request with every path of <= 6 bytes on the 25 table histories of C01 between two Use calls, with WithTrace (configured handler, exactly the Use middlewares with arguments TRACE/\"\"/router, no parameters, manual registration refused, TRACE in every Allow set incl. OPTIONS *) and without (404/405 per the documented resolution, TRACE registrable and then served); helper: httputil.DumpRequest nondeterministic (arbitrary error, or arbitrary dump of <= 3 bytes incl. HTML metacharacters), status 200, Content-Type read from the header snapshot taken at WriteHeader, body = html.EscapeString(dump), error passthrough, without body and with a body of undeclared and of declared length",
 		boundsT: "paths <= 9 bytes",
 		outside: "the content of real request dumps (httputil.DumpRequest is stubbed; natively it is the real function)",
 		stubs:   append(append([]string{}, stdStubs...), "net/http/httputil.DumpRequest: arbitrary error or arbitrary <= 3 bytes, deterministic per request; html.EscapeString: byte-wise model of the five replacements"),
@@ -224,7 +225,7 @@ var propSpecs = []propSpec{
 			{dir: "mux", entry: "ZZC19Verbs", quick: []int{2}, thorough: []int{3}},
 		},
 		covers:  []string{"program", "facade-route-reached", "verbs"},
-		bounds:  "every program of <= 2 facade calls from 11, on an empty table and on one with five literal siblings next to a parameter route (Prefix with middlewares, empty Prefix, a Prefix ending inside a {..} token, nested Prefix.Prefix + Any, Resource Get/Delete, Prefix.Resource Put, Prefix.Resource.Remove, Prefix.Clean, a nested Prefix.Clean whose prefix reaches into a parameter segment, Resource.Clean, nested Prefix.Remove with a method list) run through the facades on one router and desugared into plain Router calls on a second one; compared: Routes(), the table model, the same symbolic request (path <= 3 bytes x 6 methods: handler, pattern, parameters, middleware chain, status, Allow), Prefix.URL / Resource.URL / nested Prefix.URL vs Router.URL in both modes with a symbolic value; every verb shorthand (Get/Post/Delete/Put/Patch/Any/Handle) of Router, Prefix and Resource against the explicit Handle call on 7 patterns x 8 methods with a symbolic parameter value",
+		bounds:  "every program of <= 2 facade calls from 14 (incl. a cleaned prefix that is itself a parameter route, a Resource object that outlives its route, a Prefix object created before a Use), on an empty table and on one with five literal siblings next to a parameter route (Prefix with middlewares, empty Prefix, a Prefix ending inside a {..} token, nested Prefix.Prefix + Any, Resource Get/Delete, Prefix.Resource Put, Prefix.Resource.Remove, Prefix.Clean, a nested Prefix.Clean whose prefix reaches into a parameter segment, Resource.Clean, nested Prefix.Remove with a method list) run through the facades on one router and desugared into plain Router calls on a second one; compared: Routes(), the table model, the same symbolic request (path <= 3 bytes x 6 methods: handler, pattern, parameters, middleware chain, status, Allow), Prefix.URL / Resource.URL / nested Prefix.URL vs Router.URL in both modes with a symbolic value; every verb shorthand (Get/Post/Delete/Put/Patch/Any/Handle) of Router, Prefix and Resource against the explicit Handle call on 7 patterns x 8 methods with a symbolic parameter value",
 		boundsT: "programs of <= 3 calls, probe paths <= 4 bytes",
 		outside: "longer programs; other prefixes",
 		stubs:   stdStubs,
@@ -247,9 +248,10 @@ var propSpecs = []propSpec{
 		id: "C06",
 		runs: []runSpec{
 			{dir: "mux", entry: "ZZC06", quick: []int{0, 1, 2, 3, 4, 5, 10, 11, 12, 13, 14, 15, 20, 21, 22, 23, 24, 25, 30, 31, 32, 33, 34, 35, 40, 41, 42, 43, 44, 45, 50, 51, 52, 53, 54, 55, 1000, 1002, 1020, 1022, 1030, 1032, 16709, 17609, 13609, 16309, 12709, 18909, 60, 62, 65, 70, 72, 75}, thorough: []int{0, 1, 2, 3, 4, 5, 10, 11, 12, 13, 14, 15, 20, 21, 22, 23, 24, 25, 30, 31, 32, 33, 34, 35, 40, 41, 42, 43, 44, 45, 50, 51, 52, 53, 54, 55, 1000, 1002, 1020, 1022, 1030, 1032, 100, 101, 102, 110, 111, 112, 130, 131, 132, 16709, 17609, 13609, 16309, 12709, 18909, 60, 62, 65, 70, 72, 75, 16700, 18900}},
+			{dir: "mux", entry: "ZZC06Amb", quick: []int{0, 1}, thorough: []int{0, 1}},
 			{dir: "mux", entry: "ZZC06RR", quick: []int{1, 12, 23, 33, 34, 35, 37, 44, 55, 56, 57, 134, 103, 256, 201}, thorough: []int{1, 12, 23, 33, 34, 35, 37, 44, 55, 56, 57, 77, 134, 103, 137, 155, 256, 201, 234, 207}},
 		},
-		covers:  []string{"interleaving", "two-readers"},
+		covers:  []string{"interleaving", "two-readers", "ambiguous-pair"},
 		race:    true,
 		bounds:  "router created with WithLock(true) holding 3 routes; 2 logical threads: one writer (Handle that splits an untouched route's node, Handle of a method on the toggled route, Remove, Remove+Handle toggle, Clean, a Handle rejected as ambiguous) x one reader (ServeHTTP of the toggled route with GET and POST, of an untouched literal route, of an untouched parameter route, Routes(), strict URL), all 36 pairs plus the writers Remove(GET) and Remove+Handle(POST) with three readers; 6 two-request readers; 6 pairs of writers without a reader whose final table must be the result of some serial order of their operations (incl. two registrations through different Prefix objects that share a caller-owned middleware slice); 15 pairs of readers running at the same time (ServeHTTP, Routes(), strict URL of two different routes incl. one that runs an interceptor, non-strict URL of patterns never seen before), alone and next to a splitting registration or the toggle; deadlocks (sync.RWMutex with writer preference: a waiting Lock blocks new readers) are reported; the schedule is a symbolic choice at every lock operation and every schedule at that granularity is explored; a happens-before monitor (vector clocks over lock/unlock, pool put/get, thread start/join) checks every heap access of the interpreted code; each response must be one a sequential router could produce",
 		boundsT: "as quick plus 9 scenarios with 3 threads (two writers and a reader)",
@@ -265,10 +267,11 @@ var propSpecs = []propSpec{
 			{dir: "mux", entry: "ZZC07Nested", quick: []int{2}, thorough: []int{3}},
 			{dir: "mux", entry: "ZZC07Wide", quick: []int{2}, thorough: []int{3}},
 			{dir: "mux", entry: "ZZC08Rec", quick: []int{2}, thorough: []int{3}},
+			{dir: "mux", entry: "ZZC07Grp", quick: []int{2}, thorough: []int{3}},
 			{dir: "mux", entry: "ZZC09Grp", quick: []int{4, 5}, thorough: []int{4, 5, 6}}, // sibling routers of a group: what one is given never shows in the other
 			{dir: "mux", entry: "ZZC07Par", quick: []int{0, 1, 2, 3, 10, 12}, thorough: []int{0, 1, 2, 3, 10, 12}},
 		},
-		covers:  []string{"foreign-activity", "pooled-request-served", "nested-request", "after-a-wide-request", "par-two-routers", "par-router-and-hosts", "par-build-and-serve", "par-shared-options", "par-requests"},
+		covers:  []string{"foreign-activity", "pooled-request-served", "nested-request", "after-a-wide-request", "par-two-routers", "par-router-and-hosts", "par-build-and-serve", "par-shared-options", "par-requests", "group-siblings"},
 		race:    true,
 		bounds:  "sequential: a brand-new router (with/without WithTrace) is observed (OPTIONS * Allow, a 404, Routes(), Allow after one registration) before and after (and against the documented answers after) every sequence of <= 2 operations from 10 on other routers, a Hosts matcher and a Group; pooled contexts: two consecutive requests with symbolic paths <= 5 bytes on the backtracking table, optionally after a Group served (its own release path), and a handler that serves a nested request while its own is in flight; a request that captures 30-32 parameters (around the pool's release threshold) followed by an ordinary one; a HEAD request after a HEAD whose handler panicked and was recovered (objects pooled per request must not carry anything over); the engine also reports a pooled object that is released twice; concurrent (logical threads + happens-before monitor over every heap access): two routers registering/removing in parallel, a router and a Hosts matcher, one router being built and cleaned while another serves, a router built from the same Option values as one that is serving, two parallel requests with symbolic parameter values on one quiescent router with and without WithLock",
 		boundsT: "foreign sequences of <= 3 operations, pooled paths <= 8 bytes",
